@@ -617,40 +617,78 @@ Proof.
   induction x as [|xi x IH]; intros [|ui u] a q slope Hu Ha; cbn in Hu; try discriminate; [reflexivity|].
   cbn [map combine fst snd]. f_equal; [subst a; ring | apply IH; [lia | exact Ha]].
 Qed.
-Lemma planar_u_length w u0 : length u0 = length w -> length (planar_u ROps w u0) = length w.
+Lemma planar_u_length ns w u0 : length u0 = length w -> length (planar_u ROps ns w u0) = length w.
 Proof. intros H. unfold planar_u. rewrite vadd_length; rewrite ?map_length; lia. Qed.
 
 (* transform_and_log_det computes the activation from `x @ w`, transform from `w @ x` *)
 Lemma planar_fwd_and_log_det_value ns w u0 b x :
-  vadd ROps x (vscale ROps (planar_act ROps ns (n_add ROps (dot ROps x w) b)) (planar_u ROps w u0))
+  vadd ROps x (vscale ROps (planar_act ROps ns (n_add ROps (dot ROps x w) b)) (planar_u ROps ns w u0))
   = planar_fwd ROps ns w u0 b x.
 Proof. unfold planar_fwd. now rewrite (dotR_comm x w). Qed.
 
-Theorem planar_inv_fwd s w u0 b x :
-  0 < s <= 1 -> Exists (fun wi => wi <> 0) w ->
-  length u0 = length w -> length x = length w ->
-  -1 < dot ROps w (planar_u ROps w u0) ->
-  planar_inv ROps s w u0 b (planar_fwd ROps (Some s) w u0 b x) = x.
+(* get_act_scale: w . u-hat IS the constraint value m(w.u0) / max(1, negative_slope), for w <> 0 *)
+Lemma dotR_self_nonneg w : 0 <= dot ROps w w.
+Proof. induction w as [|x w IH]; [rewrite dotR_nil_l; lra|]. rewrite dotR_cons. nra. Qed.
+Lemma dotR_self_pos w : Exists (fun wi => wi <> 0) w -> 0 < dot ROps w w.
 Proof.
-  intros Hs _ Hu0 Hx Hwu.
-  pose proof (planar_u_length w u0 Hu0) as Hul.
-  unfold planar_inv, planar_fwd, planar_act, leaky_relu, geb, where_, Num.c.
-  set (u := planar_u ROps w u0) in *. rops.
-  set (z := dot ROps w x + b). set (wu := dot ROps w u) in *.
-  destruct (Rleb_case 0 z) as [[E Hz]|[E Hz]]; rewrite E.
-  - (* z >= 0 : activation z, numerator z (1 + w.u) >= 0, slope 1 *)
-    rewrite dotR_vadd_vscale by lia. fold wu.
-    assert (Hn : dot ROps w x + z * wu + b = z * (1 + wu)) by (unfold z; ring).
-    rewrite Hn. rewrite (Rltb_f (z * (1 + wu)) 0) by nra.
-    rewrite dotR_vscale. fold wu.
-    apply planar_undo; [lia|]. field. lra.
-  - (* z < 0 : activation s z, numerator z (1 + s w.u) < 0, slope s *)
-    rewrite dotR_vadd_vscale by lia. fold wu.
-    assert (Hp : 0 < 1 + s * wu) by nra.
-    assert (Hn : dot ROps w x + s * z * wu + b = z * (1 + s * wu)) by (unfold z; ring).
-    rewrite Hn. rewrite (Rltb_t (z * (1 + s * wu)) 0) by nra.
-    rewrite dotR_vscale. fold wu.
-    apply planar_undo; [lia|]. field. lra.
+  induction 1 as [x w Hx | x w _ IH]; rewrite dotR_cons.
+  - pose proof (dotR_self_nonneg w). assert (0 < x * x) by nra. lra.
+  - nra.
+Qed.
+Lemma dotR_vadd_map w : forall u0 k q, length u0 = length w ->
+  dot ROps w (vadd ROps u0 (map (fun wi => n_div ROps (n_mul ROps k wi) q) w)) = dot ROps w u0 + k / q * dot ROps w w.
+Proof.
+  unfold vadd, lift2. rops.
+  induction w as [|wi w IH]; intros [|ui u0] k q H; cbn in H; try discriminate.
+  - cbn [map combine]. rewrite !dotR_nil_l. ring.
+  - cbn [map combine fst snd]. rewrite !dotR_cons, IH by lia. unfold Rdiv. ring.
+Qed.
+Definition planar_m (a : R) : R := -1 + ln (1 + ln (1 + exp a)).
+Lemma planar_m_gt a : -1 < planar_m a.
+Proof.
+  unfold planar_m. pose proof (exp_pos a) as He.
+  assert (H1 : 0 < ln (1 + exp a)) by (rewrite <- ln_1; apply ln_increasing; lra).
+  assert (H2 : 0 < ln (1 + ln (1 + exp a))) by (rewrite <- ln_1 at 1; apply ln_increasing; lra).
+  lra.
+Qed.
+Lemma planar_k_some s : planar_k ROps (Some s) = Rmax 1 s.
+Proof.
+  unfold planar_k, nmax, Num.c. rops. unfold Rmax.
+  destruct (Rltb_case 1 s) as [[E H]|[E H]]; rewrite E; destruct (Rle_dec 1 s); lra.
+Qed.
+Lemma planar_u_dot s w u0 : Exists (fun wi => wi <> 0) w -> length u0 = length w ->
+  dot ROps w (planar_u ROps (Some s) w u0) = planar_m (dot ROps u0 w) / Rmax 1 s.
+Proof.
+  intros Hw Hl. pose proof (dotR_self_pos w Hw) as Hp.
+  unfold planar_u. rewrite planar_k_some. unfold Num.c. rops.
+  rewrite dotR_vadd_map by exact Hl. fold (planar_m (dot ROps u0 w)).
+  rewrite sqrt_sqrt by lra. rewrite (dotR_comm w u0).
+  assert (0 < Rmax 1 s) by (pose proof (Rmax_l 1 s); lra).
+  field. split; lra.
+Qed.
+Lemma planar_u_old_dot w u0 : Exists (fun wi => wi <> 0) w -> length u0 = length w ->
+  dot ROps w (planar_u_old ROps w u0) = planar_m (dot ROps u0 w).
+Proof.
+  intros Hw Hl. pose proof (dotR_self_pos w Hw) as Hp.
+  unfold planar_u_old. unfold Num.c. rops.
+  rewrite dotR_vadd_map by exact Hl. fold (planar_m (dot ROps u0 w)).
+  rewrite sqrt_sqrt by lra. rewrite (dotR_comm w u0). field. lra.
+Qed.
+(* what invertibility needs, for BOTH slopes of the leaky relu, any negative slope s > 0 *)
+Lemma planar_constraint s w u0 : 0 < s -> Exists (fun wi => wi <> 0) w -> length u0 = length w ->
+  0 < 1 + dot ROps w (planar_u ROps (Some s) w u0) /\ 0 < 1 + s * dot ROps w (planar_u ROps (Some s) w u0).
+Proof.
+  intros Hs Hw Hl. rewrite (planar_u_dot s w u0 Hw Hl).
+  pose proof (planar_m_gt (dot ROps u0 w)) as Hm. set (m := planar_m _) in *.
+  pose proof (Rmax_l 1 s) as K1. pose proof (Rmax_r 1 s) as K2. set (K := Rmax 1 s) in *.
+  assert (HK : 0 < K) by lra. assert (Hi : 0 < / K) by (apply Rinv_0_lt_compat, HK).
+  assert (Hi1 : / K <= 1) by (rewrite <- Rinv_1; apply Rinv_le_contravar; lra).
+  assert (Hsk : s * / K <= 1).
+  { apply Rmult_le_reg_r with K; [exact HK|]. rewrite Rmult_assoc, Rinv_l by lra. lra. }
+  assert (Hsk0 : 0 < s * / K) by (apply Rmult_lt_0_compat; assumption).
+  unfold Rdiv. split.
+  - destruct (Rle_lt_dec 0 m); nra.
+  - replace (s * (m * / K)) with ((s * / K) * m) by ring. destruct (Rle_lt_dec 0 m); nra.
 Qed.
 
 Lemma dotR_vsub_vscale w : forall y u k, length y = length w -> length u = length w ->
@@ -669,35 +707,79 @@ Proof.
   cbn [map combine fst snd]. f_equal; [subst a; ring | apply IH; [lia | exact Ha]].
 Qed.
 
+Section PlanarCore.
+  (* the round trips for any direction vector u with 0 < 1 + w.u and 0 < 1 + s w.u *)
+  Variables (s : R) (w u : list R) (b : R).
+  Hypothesis Hs : 0 < s.
+  Hypothesis Hp1 : 0 < 1 + dot ROps w u.
+  Hypothesis Hps : 0 < 1 + s * dot ROps w u.
+  Hypothesis Hul : length u = length w.
+  Definition pl_fwd (x : list R) : list R :=
+    vadd ROps x (vscale ROps (leaky_relu ROps s (n_add ROps (dot ROps w x) b)) u).
+  Definition pl_inv (y : list R) : list R :=
+    let numer := n_add ROps (dot ROps w y) b in
+    let slope := where_ (n_ltb ROps numer (c ROps 0)) s (c ROps 1) in
+    let us := vscale ROps slope u in
+    vsub ROps y (vscale ROps (n_div ROps numer (n_add ROps (c ROps 1) (dot ROps w us))) us).
+  Lemma pl_inv_fwd x : length x = length w -> pl_inv (pl_fwd x) = x.
+  Proof.
+    intros Hx. unfold pl_inv, pl_fwd, leaky_relu, geb, where_, Num.c. rops.
+    set (z := dot ROps w x + b). set (wu := dot ROps w u) in *.
+    destruct (Rleb_case 0 z) as [[E Hz]|[E Hz]]; rewrite E.
+    - rewrite dotR_vadd_vscale by lia. fold wu.
+      assert (Hn : dot ROps w x + z * wu + b = z * (1 + wu)) by (unfold z; ring).
+      rewrite Hn. rewrite (Rltb_f (z * (1 + wu)) 0) by nra.
+      rewrite dotR_vscale. fold wu.
+      apply planar_undo; [lia|]. field. lra.
+    - rewrite dotR_vadd_vscale by lia. fold wu.
+      assert (Hn : dot ROps w x + s * z * wu + b = z * (1 + s * wu)) by (unfold z; ring).
+      rewrite Hn. rewrite (Rltb_t (z * (1 + s * wu)) 0) by nra.
+      rewrite dotR_vscale. fold wu.
+      apply planar_undo; [lia|]. field. lra.
+  Qed.
+
+  Lemma pl_fwd_inv y : length y = length w -> pl_fwd (pl_inv y) = y.
+  Proof.
+    intros Hy. unfold pl_inv, pl_fwd, leaky_relu, geb, where_, Num.c. rops.
+    set (N := dot ROps w y + b). set (wu := dot ROps w u) in *.
+    destruct (Rltb_case N 0) as [[E HN]|[E HN]]; rewrite E.
+    - rewrite dotR_vscale. fold wu.
+      set (q := N / (1 + s * wu)).
+      assert (Hq : q < 0).
+      { unfold q, Rdiv. replace 0 with (0 * / (1 + s * wu)) by ring.
+        apply Rmult_lt_compat_r; [apply Rinv_0_lt_compat, Hps | exact HN]. }
+      rewrite dotR_vsub_vscale by (rewrite ?vscale_length; lia). rewrite dotR_vscale. fold wu.
+      assert (Hz : dot ROps w y - q * (s * wu) + b = q) by (unfold q, N; field; lra).
+      rewrite Hz. rewrite (Rleb_f 0 q) by exact Hq.
+      apply planar_redo; [lia | ring].
+    - rewrite dotR_vscale. fold wu. assert (Hp : 0 < 1 + 1 * wu) by lra.
+      set (q := N / (1 + 1 * wu)).
+      assert (Hq : 0 <= q).
+      { unfold q, Rdiv. apply Rmult_le_pos; [exact HN | left; apply Rinv_0_lt_compat, Hp]. }
+      rewrite dotR_vsub_vscale by (rewrite ?vscale_length; lia). rewrite dotR_vscale. fold wu.
+      assert (Hz : dot ROps w y - q * (1 * wu) + b = q) by (unfold q, N; field; lra).
+      rewrite Hz. rewrite (Rleb_t 0 q) by exact Hq.
+      apply planar_redo; [lia | ring].
+  Qed.
+End PlanarCore.
+
+(* Planar with the leaky-relu activation: ANY negative slope s > 0, any w <> 0, any raw act_scale u0,
+   any dimension -- the constraint on u-hat is proved from get_act_scale, not assumed *)
+Theorem planar_inv_fwd s w u0 b x :
+  0 < s -> Exists (fun wi => wi <> 0) w -> length u0 = length w -> length x = length w ->
+  planar_inv ROps s w u0 b (planar_fwd ROps (Some s) w u0 b x) = x.
+Proof.
+  intros Hs Hw Hu0 Hx. destruct (planar_constraint s w u0 Hs Hw Hu0) as [H1 H2].
+  change (pl_inv s w (planar_u ROps (Some s) w u0) b (pl_fwd s w (planar_u ROps (Some s) w u0) b x) = x).
+  apply pl_inv_fwd; auto. apply planar_u_length, Hu0.
+Qed.
 Theorem planar_fwd_inv s w u0 b y :
-  0 < s <= 1 -> Exists (fun wi => wi <> 0) w ->
-  length u0 = length w -> length y = length w ->
-  -1 < dot ROps w (planar_u ROps w u0) ->
+  0 < s -> Exists (fun wi => wi <> 0) w -> length u0 = length w -> length y = length w ->
   planar_fwd ROps (Some s) w u0 b (planar_inv ROps s w u0 b y) = y.
 Proof.
-  intros Hs _ Hu0 Hy Hwu.
-  pose proof (planar_u_length w u0 Hu0) as Hul.
-  unfold planar_inv, planar_fwd, planar_act, leaky_relu, geb, where_, Num.c.
-  set (u := planar_u ROps w u0) in *. rops.
-  set (N := dot ROps w y + b). set (wu := dot ROps w u) in *.
-  destruct (Rltb_case N 0) as [[E HN]|[E HN]]; rewrite E.
-  - rewrite dotR_vscale. fold wu. assert (Hp : 0 < 1 + s * wu) by nra.
-    set (q := N / (1 + s * wu)).
-    assert (Hq : q < 0).
-    { unfold q, Rdiv. replace 0 with (0 * / (1 + s * wu)) by ring.
-      apply Rmult_lt_compat_r; [apply Rinv_0_lt_compat, Hp | exact HN]. }
-    rewrite dotR_vsub_vscale by (rewrite ?vscale_length; lia). rewrite dotR_vscale. fold wu.
-    assert (Hz : dot ROps w y - q * (s * wu) + b = q) by (unfold q, N; field; lra).
-    rewrite Hz. rewrite (Rleb_f 0 q) by exact Hq.
-    apply planar_redo; [lia | ring].
-  - rewrite dotR_vscale. fold wu. assert (Hp : 0 < 1 + 1 * wu) by lra.
-    set (q := N / (1 + 1 * wu)).
-    assert (Hq : 0 <= q).
-    { unfold q, Rdiv. apply Rmult_le_pos; [exact HN | left; apply Rinv_0_lt_compat, Hp]. }
-    rewrite dotR_vsub_vscale by (rewrite ?vscale_length; lia). rewrite dotR_vscale. fold wu.
-    assert (Hz : dot ROps w y - q * (1 * wu) + b = q) by (unfold q, N; field; lra).
-    rewrite Hz. rewrite (Rleb_t 0 q) by exact Hq.
-    apply planar_redo; [lia | ring].
+  intros Hs Hw Hu0 Hy. destruct (planar_constraint s w u0 Hs Hw Hu0) as [H1 H2].
+  change (pl_fwd s w (planar_u ROps (Some s) w u0) b (pl_inv s w (planar_u ROps (Some s) w u0) b y) = y).
+  apply pl_fwd_inv; auto. apply planar_u_length, Hu0.
 Qed.
 
 (* the converse: the substitution returns a solution, so transform (inverse y) = y *)
